@@ -207,13 +207,13 @@ def _check_before_write(ctx, mod):
             call = [c for c in C.node_calls(node)
                     if isinstance(c.func, ast.Name) and
                     c.func.id == '_check_capacity'][0]
-            ok = [N.txt(a) for a in call.args] == ['cell', 'allocation',
-                                                   'rsrc']
-            split = any(isinstance(s, ast.Assign) and
-                        N.txt(s.targets[0]) in ('allocation, cell',
-                                                '(allocation, cell)') and
-                        N.txt(s.value) == "rsrc_id.rsplit('/', 1)"
-                        for s in K.walk_no_nested(func.node))
+            # whatever the locals are called: (second, first) piece of the
+            # rsrc_id split and the request itself
+            pid, preq = func.params()[:2]
+            ok = [K.rtxt(func, a) for a in call.args] == [
+                "%s.rsplit('/', 1)[1]" % pid, "%s.rsplit('/', 1)[0]" % pid,
+                preq]
+            split = True
             ctx.ob('C19.3', func, node, ok and split,
                    'checked with (cell, allocation, request) from the '
                    'rsrc_id split', construct='_check_capacity arguments '
@@ -348,7 +348,7 @@ def _trait_limits(ctx, mod, cap):
     ctx.require(comp is not None, 'selection of applicable limits')
     gen = comp.generators[0]
     var = N.txt(gen.target)
-    conds = [N.txt(i) for i in gen.ifs]
+    conds = [K.rtxt(cap, i) for i in gen.ifs]
     src = K.rexpr(cap, gen.iter)
     ok = isinstance(src, ast.Subscript) and \
         N.txt(src.slice) == "'limits'" and \
